@@ -75,9 +75,9 @@ CHUNK = 1
 EXHAUSTIVE = {"quick": False, "thorough": False}
 FLOORS = {
     "quick": {"distinct_nontrivial": 100,
-              "mon": {"solve_contract": 500, "build_calls": 1200, "setBackground_contract": 500,
+              "mon": {"solve_contract": 600, "build_calls": 1400, "setBackground_contract": 600,
                       "basis_pairs_deltaF": 170, "basis_derived_judged": 5000,
-                      "homogeneous": 56, "unit_scaling": 56, "eom_fd": 56,
+                      "homogeneous": 112, "unit_scaling": 56, "eom_fd": 56,
                       "fd_series_points": 42, "source_exact": 28, "operator_exact": 84},
               "cls": {"basis:T": 12, "basis:v": 12, "basis:field": 12, "basis:combined": 12,
                       "conv:T": 3, "conv:v": 3, "conv:field": 3, "conv:combined": 3,
@@ -85,7 +85,7 @@ FLOORS = {
     "thorough": {"distinct_nontrivial": 700,
                  "mon": {"solve_contract": 3000, "build_calls": 7000,
                          "setBackground_contract": 3000, "basis_pairs_deltaF": 1100,
-                         "basis_derived_judged": 20000, "homogeneous": 380,
+                         "basis_derived_judged": 20000, "homogeneous": 760,
                          "unit_scaling": 380, "eom_fd": 380, "fd_series_points": 300,
                          "source_exact": 280, "operator_exact": 850},
                  "cls": {"basis:T": 90, "basis:v": 90, "basis:field": 90,
@@ -254,7 +254,9 @@ def _install_monitors():
                     "mech": "assembly-not-repeatable",
                     "msg": "two buildLinearEquations calls on an unchanged solver returned "
                            "different operator/source", "data": {}}]})
-            REC.fp[id(self)] = (tok, fp)
+            # the solver object is kept alive for the session so that id()s (of it, its
+            # background and its collision array) cannot be recycled into a false match
+            REC.fp[id(self)] = (tok, fp, self)
             REC.mon["build_repeat_checked"] += int(old is not None and old[0] == tok)
         return out
 
@@ -536,7 +538,7 @@ def _derived(res):
             "crit2": np.array(res.linearizationCriterion2, dtype=float)}
 
 
-def _collect(viol, mon, extra_ctx=""):
+def _collect(viol, _unused=None, extra_ctx=""):
     """Drain monitor events into the case's violation list; return the solve events."""
     solves = []
     for ev in _Session.drain():
@@ -754,6 +756,7 @@ def _case_basis(case):
         # rounding noise of each (derivative matrix @ constant profile) has its own term
         # of relative size >= amin to be compared with
         if bgtype == "combined":
+            setup_a = setup
             rr, amin = runs[hb], setup.minAmplitude()
         else:
             setup_a = Setup(_variant(cfg, ("T", "v", "field")))
@@ -801,6 +804,25 @@ def _case_basis(case):
                                     f"directly built finite-difference solver by {err3:.3e} "
                                     f"(tolerance {tol3:.2e})", "data": obs["eom_fd"]})
             obs["fd_vs_spectral_deltaF"] = float(np.abs(direct["vals"] - ref["vals"]).max()) / fscale
+
+        # ---- (1) again, in finite-difference mode
+        rhf = _run(setup_h, "Cardinal", "Cardinal", "Finite Difference", viol, "homogeneous FD")
+        rrf = direct if bgtype == "combined" else _run(
+            setup_a, "Cardinal", "Cardinal", "Finite Difference", viol, "all-varying reference FD")
+        if rhf["vals"] is not None and rrf["vals"] is not None and np.isfinite(rrf["kappa"]):
+            mon["homogeneous"] += 1
+            tol_src = K_HOM * EPS * M * M / amin
+            tol_df = tol_src * max(1.0, min(rrf["kappa"], KAPPA_MAX))
+            r_src = rhf["src_inf"] / rrf["src_inf"]
+            r_df = float(np.abs(rhf["vals"]).max()) / float(np.abs(rrf["vals"]).max())
+            obs["hom_fd"] = {"src_ratio": r_src, "df_ratio": r_df, "tol_src": tol_src,
+                             "tol_df": tol_df, "model_units": r_src * amin / (EPS * M * M)}
+            if not (r_src <= tol_src and r_df <= tol_df):
+                viol.append({"mech": "homogeneous-background-nonzero-deviation",
+                             "msg": f"finite-difference mode, constant T, v, fields: |source|/"
+                                    f"|source(varying)| = {r_src:.3e} (rounding model {tol_src:.2e}), "
+                                    f"|deltaF|/|deltaF(varying)| = {r_df:.3e} (model {tol_df:.2e}); "
+                                    f"M={M} N={N}", "data": obs["hom_fd"]})
         return _finish(case, obs, viol, "basis:" + bgtype, None, True)
 
 
@@ -1094,6 +1116,10 @@ def summarize(results, tier):
         "homogeneous_source_in_model_units (tolerance at %g)" % K_HOM:
             _stats([num(o["hom"]["model_units"]) for o in bas if "hom" in o]),
         "homogeneous_deltaF_ratio": _stats([num(o["hom"]["df_ratio"]) for o in bas if "hom" in o]),
+        "homogeneous_fd_source_in_model_units": _stats([num(o["hom_fd"]["model_units"])
+                                                        for o in bas if "hom_fd" in o]),
+        "homogeneous_fd_deltaF_ratio": _stats([num(o["hom_fd"]["df_ratio"])
+                                               for o in bas if "hom_fd" in o]),
         "eom_fd_err_over_tol": _stats([num(o["eom_fd"]["err"]) / num(o["eom_fd"]["tol"])
                                        for o in bas if "eom_fd" in o]),
         "derived_worst_ratio_to_tolerance": {
